@@ -25,6 +25,7 @@ import (
 	"github.com/idena-network/idena-go/blockchain/validation"
 	"github.com/idena-network/idena-go/common"
 	"github.com/idena-network/idena-go/config"
+	"github.com/idena-network/idena-go/core/appstate"
 	"github.com/idena-network/idena-go/core/ceremony"
 	"github.com/idena-network/idena-go/core/state"
 	"github.com/idena-network/idena-go/crypto"
@@ -47,6 +48,7 @@ type c01params struct {
 	DBDir        string `json:"db_dir"`   // follower: directory of its on-disk database (a restart is a new process over it)
 	StartAt      int    `json:"start_at"` // follower: lines of the blocks file already consumed by earlier processes
 	Seg          int    `json:"seg"`      // follower: number of this process in the follower's life
+	Batch        int    `json:"batch"`    // follower: > 0: blocks are inserted on the full-sync route, in batches of this many on one check state
 	Fork         int    `json:"fork"`     // follower: 0 = skip side blocks; 1 = insert every side block, then reset to its parent; 2 = and restart right after the reset
 	ReorgEvery   int    `json:"reorg_every"`
 	SkewSec      int    `json:"skew_sec"`
@@ -433,6 +435,7 @@ func c01follow(c *hx.Ctx, p c01params) error {
 		c.Line("ans", ansLine(w, n))
 	}
 	var blocks []*types.Block
+	var syncState *appstate.AppState // the check state of the running full-sync batch
 	i := 0
 	lineNo := 0
 	restartDue := false
@@ -537,6 +540,7 @@ func c01follow(c *hx.Ctx, p c01params) error {
 				c.Fail("C01:reset-failed:"+p.Label, err.Error(), p)
 				return nil
 			}
+			syncState = nil
 			c.Line("reset 1", "ok")
 			c.Line("ans", ansLine(w, n))
 			c.Hit("fork-switches")
@@ -555,6 +559,7 @@ func c01follow(c *hx.Ctx, p c01params) error {
 				c.Fail("C01:reset-failed:"+p.Label, err.Error(), p)
 				return nil
 			}
+			syncState = nil
 			c.Line(fmt.Sprintf("reset %d", k), "ok")
 			c.Line("ans", ansLine(w, n))
 			for _, rb := range blocks[len(blocks)-1-k : len(blocks)-1] {
@@ -576,7 +581,18 @@ func c01follow(c *hx.Ctx, p c01params) error {
 			}
 			c.Hit("reorgs")
 		}
-		if err := n.Add(blk); err != nil {
+		var aerr error
+		if p.Batch > 0 {
+			// the full-sync route: one check state (ForCheckWithOverwrite) per batch of blocks
+			if i%p.Batch == 1 || p.Batch == 1 {
+				syncState = nil
+			}
+			syncState, aerr = n.AddSynced(blk, syncState)
+			c.Hit("blocks-on-sync-route")
+		} else {
+			aerr = n.Add(blk)
+		}
+		if err := aerr; err != nil {
 			c.Fail("C01:replica-rejects-block:"+p.Label, fmt.Sprintf("height %d (flags %d, %d txs) in environment %s (TZ=%s): %v", blk.Height(), blk.Header.Flags(), len(blk.Body.Transactions), p.Label, os.Getenv("TZ"), err), p)
 			return nil
 		}
@@ -597,6 +613,7 @@ type c01env struct {
 	reorgEvery   int
 	skew         int
 	fork         int
+	batch        int
 }
 
 func c01parent(c *hx.Ctx) error {
@@ -604,11 +621,12 @@ func c01parent(c *hx.Ctx) error {
 	if err != nil {
 		return err
 	}
-	c.Rep.Rule = "per history: a generator process builds the chain with the real code (every block proposed twice on the same head and compared) and follower processes insert the same blocks in different environments: host time zone (UTC, Asia/Tokyo, Pacific/Auckland, America/Los_Angeles), wall clock skew +90 s, restart from the database every 7 blocks, reset-and-return every 9 blocks, plain repetitions (map iteration order); per height (root, identity root, next validation time, epoch, fee rate, period) compared with the generator; distinct = (history, environment); the tz scenario has 408 identities (epoch length normalisation by weekday active)"
+	c.Rep.Rule = "per history: a generator process builds the chain with the real code (every block proposed twice on the same head and compared) and follower processes insert the same blocks in different environments: host time zone (UTC, Asia/Tokyo, Pacific/Auckland, America/Los_Angeles), wall clock skew +90 s, restart (a new process over the on-disk database) every 7 blocks, reset-and-return every 9 blocks (also over validation-finishing blocks), insertion of every side block followed by a fork evaluation of the canonical continuation and a reset, the full-sync route (batches of 4/5/7 blocks on one ForCheckWithOverwrite check state, with restarts / reorgs / side blocks), plain repetitions (map iteration order); per height (root, identity root, next validation time, epoch, fee rate, period) compared with the generator; distinct = (history, environment); the tz scenario has 408 identities (epoch length normalisation by weekday active)"
 	envs := []c01env{
-		{"utc", "UTC", 0, 0, 0, 0}, {"tokyo", "Asia/Tokyo", 0, 0, 0, 0}, {"auckland", "Pacific/Auckland", 0, 0, 0, 0}, {"los-angeles", "America/Los_Angeles", 0, 0, 0, 0},
-		{"skew+90s", "UTC", 0, 0, 90, 0}, {"restart7", "UTC", 7, 0, 0, 0}, {"reorg9", "UTC", 0, 9, 0, 0}, {"restart5+reorg11-tokyo", "Asia/Tokyo", 5, 11, 0, 0},
-		{"fork", "UTC", 0, 0, 0, 1}, {"fork+restart", "UTC", 0, 0, 0, 2}, {"fork+restart6", "UTC", 6, 0, 0, 1},
+		{"utc", "UTC", 0, 0, 0, 0, 0}, {"tokyo", "Asia/Tokyo", 0, 0, 0, 0, 0}, {"auckland", "Pacific/Auckland", 0, 0, 0, 0, 0}, {"los-angeles", "America/Los_Angeles", 0, 0, 0, 0, 0},
+		{"skew+90s", "UTC", 0, 0, 90, 0, 0}, {"restart7", "UTC", 7, 0, 0, 0, 0}, {"reorg9", "UTC", 0, 9, 0, 0, 0}, {"restart5+reorg11-tokyo", "Asia/Tokyo", 5, 11, 0, 0, 0},
+		{"fork", "UTC", 0, 0, 0, 1, 0}, {"fork+restart", "UTC", 0, 0, 0, 2, 0}, {"fork+restart6", "UTC", 6, 0, 0, 1, 0},
+		{"sync-batch7", "UTC", 0, 0, 0, 0, 7}, {"sync-batch4+restart9+fork", "UTC", 9, 0, 0, 1, 4}, {"sync-batch5+reorg13", "UTC", 0, 13, 0, 0, 5},
 	}
 	nh := c.Scale(3, 40)
 	type job struct {
@@ -743,7 +761,7 @@ func c01parent(c *hx.Ctx) error {
 			e := e
 			go func() {
 				p := base
-				p.Mode, p.Label, p.RestartEvery, p.ReorgEvery, p.SkewSec, p.Fork = "follow", e.label, e.restartEvery, e.reorgEvery, e.skew, e.fork
+				p.Mode, p.Label, p.RestartEvery, p.ReorgEvery, p.SkewSec, p.Fork, p.Batch = "follow", e.label, e.restartEvery, e.reorgEvery, e.skew, e.fork, e.batch
 				p.TraceFile = filepath.Join(c.Out, fmt.Sprintf("trace-%d-%s.txt", seed, e.label))
 				p.DBDir = filepath.Join(c.Out, fmt.Sprintf("db-%d-%s", seed, e.label))
 				os.RemoveAll(p.DBDir)
